@@ -1,14 +1,17 @@
 import Sudachi.Model.Wire
 import Sudachi.Model.CharCat
+import Sudachi.Model.Edit
 /-! Line protocol dispatcher: one case per line in, one answer per line out. -/
 namespace Driver
 
 def answer (line : String) : String :=
   let toks := Wire.words line.toList
   match toks with
-  | p :: _op :: rest =>
+  | p :: op :: rest =>
     match String.ofList p with
+    | "C01" => if String.ofList op == "morph" then EditM.handleMorph rest else EditM.handle rest
     | "C17" => CharCat.handle rest
+    | "C08" => EditM.handle rest
     | _ => "bad-op"
   | _ => "bad-op"
 
